@@ -33,7 +33,11 @@ Fixpoint show_ext_tree (t : stree) : list string :=
   end.
 Definition show_spec (g : grammar) (c : config) (tbl : list ((nat * nat) * nat)) (fuel : nat) (input : list N) : string :=
   match spec_run g c (orc_of tbl) fuel input with
-  | SOk ts p => "ok|" ++ sjoin "," (map (show_tree g) (erase_all ts)) ++ "|" ++ sjoin "," (flat_map show_ext_tree ts)
+  | SOk ts p => "ok|" ++ sjoin "," (map (show_tree g) (erase_all ts)) ++ "|" ++ sjoin "," (flat_map show_ext_tree ts) ++ "|" ++
+                match spec_run_q g c (orc_of tbl) fuel input with
+                | SOk tsq _ => sjoin "," (map (show_tree g) (erase_all tsq))
+                | _ => "?"
+                end
   | SFail => "fail"
   | SOut => "out"
   end.
@@ -77,14 +81,14 @@ def spec_extents(sv):
         return None
     if not sv.startswith("ok|"):
         return {"ok": False, "spans": set()}
-    _, tree, ext = sv.split("|", 2)
+    _, tree, ext, qtree = sv.split("|", 3)
     spans = set()
     for part in ext.split(","):
         if not part or part.endswith(":-"):
             continue
         nid, a, b = part.split(":")
         spans.add((int(nid), int(a), int(b)))
-    return {"ok": True, "spans": spans, "tree": tree}
+    return {"ok": True, "spans": spans, "tree": tree, "qtree": qtree}
 
 
 # ---------------------------------------------------------------- classifier: mirror of Spec.wfg
@@ -116,8 +120,21 @@ def prod_table(dump):
     return cur
 
 
+def feature_tags(dump):
+    """constructs present in the parser model (used to attribute the known span / tree findings)"""
+    tags = set()
+    for nd in dump["nodes"]:
+        if nd["suppress"]:
+            tags.add("suppression")
+        if nd["sep"] is not None:
+            tags.add("separator")
+        if nd["kind"] == "KStr" and len(nd["text"]) == 0:
+            tags.add("empty_literal")
+    return tags
+
+
 def classify_dump(dump):
-    """Tags of the constructs outside the class of C01_refinement (mirror of Spec.node_ok / wfg).
+    """Tags of the constructs outside the class of C01_refinement_partial (mirror of Spec.node_ok / wfg).
     Empty set <=> wfg g 24 = true."""
     tags = set()
     prod = prod_table(dump)
@@ -126,30 +143,27 @@ def classify_dump(dump):
         tags.add("comments")
     for nd in nodes:
         k, kids = nd["kind"], nd["kids"]
-        if nd["suppress"]:
-            tags.add("suppression")
-        if nd["sep"] is not None:
-            tags.add("separator")
+        live_root = nd["root"] and not nd["suppress"]
+        if nd["sep"] is not None and k not in ("KStar", "KPlus"):
+            tags.add("unordered_group" if k == "KUnord" else "malformed")
         if nd["eolterm"]:
             tags.add("eolterm")
-        if nd["ws"] is not None or nd["skipws"] is not None:
-            tags.add("rule_modifiers")
-        if k in ("KUnord",):
+        if (nd["ws"] is not None or nd["skipws"] is not None) and k not in ("KSeq", "KChoice"):
+            tags.add("malformed")
+        if k == "KUnord":
             tags.add("unordered_group")
-        if k in ("KAnd", "KNot", "KEmpty"):
-            tags.add("predicate")
+        if k in ("KAnd", "KNot", "KEmpty") and live_root:
+            tags.add("nullable_rule")
         if k == "KStr" and len(nd["text"]) == 0:
             tags.add("empty_literal")
         if k == "KChoice" and not (kids and all(prod[c] for c in kids)):
             tags.add("choice_alt_nonproductive")
         if k in ("KStar", "KPlus") and not (kids and prod[kids[0]]):
             tags.add("rep_elem_nonproductive")
-        if k == "KOpt" and nd["root"] and not (kids and prod[kids[0]]):
+        if k == "KOpt" and ((live_root and not (kids and prod[kids[0]])) or not kids):
+            tags.add("nullable_rule" if kids else "malformed")
+        if k == "KSeq" and live_root and not any(prod[c] for c in kids):
             tags.add("nullable_rule")
-        if k == "KSeq" and nd["root"] and not any(prod[c] for c in kids):
-            tags.add("nullable_rule")
-        if k == "KOpt" and not kids:
-            tags.add("malformed")
     return tags
 
 
@@ -391,6 +405,7 @@ def run(chk):
             chk.stat("grammar rejected: " + res["grammar_error"].split(":")[0])
             continue
         tags = classify_dump(res["dump"])
+        ftags = feature_tags(res["dump"])
         chk.stat("grammars: %s" % ("in the theorem's class (wfg)" if not tags else "outside wfg"))
         for t in sorted(tags):
             chk.stat("grammar has: " + t)
@@ -422,9 +437,12 @@ def run(chk):
             if wf_coq != (not tags):
                 disagreements.append({"case": cinfo, "impl": sorted(tags), "model": "Coq wfg = %s" % mv[3]})
             ctags = sorted(tags) + (["empty_regex_match"] if zero else [])
+            has_sep = "separator" in ftags
+            ttags = ctags + (["separator"] if has_sep else [])      # tree / model level: the trailing-separator variant
             # ---- (b) the reference semantics vs the implementation
             sp = spec_extents(mv[1])
             bad = None
+            btags = ctags
             if mv[1] == "out":
                 chk.stat("spec: out of fuel")
             elif sp["ok"] != accepted:
@@ -433,9 +451,15 @@ def run(chk):
                 else:
                     bad = "acceptance differs: reference semantics %s, implementation %s" % (
                         "accept" if sp["ok"] else "reject", tree[:80])
+            elif accepted and not tags and not zero and "P:" + sp["qtree"] != tree:
+                # inside the class the tree is the trailing-separator variant's (C01_refinement_partial)
+                bad = "parse tree differs from the trailing-separator variant of the reference: %s, implementation %s" % (sp["qtree"][:200], tree[2:202])
+                btags = []
             elif accepted and "P:" + sp["tree"] != tree:
                 bad = "parse tree differs: reference %s, implementation %s" % (sp["tree"][:200], tree[2:202])
+                btags = ttags
             elif accepted:
+                btags = ttags
                 sm = bc.model_outcome(mv[2])
                 if sm.get("err") != "unsup" and not bc.outcomes_agree(sm, im):
                     bad = "model differs from the one the reference semantics prescribe: reference %s, implementation %s" % (
@@ -451,7 +475,7 @@ def run(chk):
                 failures.append({"case": cinfo, "what": what, "tags": [], "impl": im})
             if bad:
                 chk.stat("impl deviates from the reference semantics")
-                failures.append({"case": cinfo, "what": bad, "tags": ctags, "impl": [tree[:300], im], "model": mv[1][:300]})
+                failures.append({"case": cinfo, "what": bad, "tags": btags, "impl": [tree[:300], im], "model": mv[1][:300]})
             elif not tags and not zero:
                 chk.stat("cases inside the theorem's class agreeing with the reference")
             if chk.cov["evaluations"] % 80 == 7:
